@@ -145,6 +145,26 @@ def enum_bool(ctx: Ctx, h: Harness):
                 bad = f"declared <Enumeration value=\"{rv}\" label=\"{want}\">: raw {rv} gives {kind} {got!r}; expected the label {want!r}"
             if bad:
                 break
+        # negative listed values on every spelling of a signed encoding (built from objects and declared in a document)
+        neg = {-1: "MINUS_ONE", 0: "ZERO", 127: "MAX", -128: "MIN"}
+        for enc in ("signed", "twosComplement", "twosCompliment"):
+            if bad:
+                break
+            el2 = make_elem("EnumeratedParameterType", {"name": "N"}, children=[
+                make_elem("IntegerDataEncoding", {"sizeInBits": "8", "encoding": enc}),
+                make_elem("EnumerationList", children=[make_elem("Enumeration", {"value": str(v), "label": lab}) for v, lab in neg.items()])])
+            t_xml = hx.ev("parameter_types.EnumeratedParameterType.from_xml(el)", "xtce/definitions.py", el=el2)
+            t_obj = hx.ev("parameter_types.EnumeratedParameterType('N', parameter_types.encodings.IntegerDataEncoding(8, enc), tab)",
+                          "xtce/definitions.py", enc=enc, tab=dict(neg))
+            for how, t2 in (("declared in a document", t_xml), ("built from objects", t_obj)):
+                for rv, want in neg.items():
+                    kind, got = hx.outcome("t.parse_value(pkt)", "xtce/definitions.py", t=t2, pkt=hx.packet(bytes([rv & 0xFF]), {}))
+                    if not (kind == "ok" and got == want and got.attrs.get("raw_value") == rv):
+                        bad = (f"8-bit `{enc}` enumeration {how} listing {rv} -> {want!r}: a field holding {rv} gives "
+                               f"{'raises ' + str(got) if kind != 'ok' else repr(got)}; expected the label {want!r}")
+                        break
+                if bad:
+                    break
         ctx.decide(bad is None, "R8.enum", site, "", bad or "", where=where(fe, fe.node))
     except (Unsupported, Raised) as e:
         ctx.unknown("R8.enum", site, str(e))
